@@ -124,6 +124,7 @@ func checkC06(c *Check) {
 	lockBalance(c, "L1", []string{pipelineRel}, nil)
 
 	c06StageOrder(c)
+	c06ResultsKept(c, "R7")
 
 	// ---- R2
 	c.Rule("R2", "no verdict is dropped: after an error of checkConnSender / checkRcpt / checkBody / applyResults the function neither reports success nor hands anything to a target", 8)
@@ -685,6 +686,67 @@ func c06MetadataIdentity(c *Check) {
 	if n == 0 {
 		c.Fail("R5", "targets", token.NoPos, "undecided: no implementation of DeliveryTarget.Start found")
 	}
+	// … and the pipeline, which sets the flag, gives every target the object it sets it on: the metadata argument of
+	// a target's Start inside the pipeline package is the delivery's own metadata (a field / parameter), never a copy
+	c.Rule("R5c", "the pipeline starts every target (nested pipelines included) with the very metadata object it later writes the quarantine verdict to: the argument of Start is the delivery's metadata field or parameter on every path, not a DeepCopy / dereferenced copy", 1)
+	m := 0
+	for _, fi := range funcsOfPkgs(p, pipelineRel) {
+		info := fi.Info()
+		var r *RuleCtx
+		for _, call := range callsIn(fi.Decl.Body) {
+			if methodName(call) != "Start" || len(call.Args) != 3 {
+				continue
+			}
+			at, isPtr := info.TypeOf(call.Args[1]).(*types.Pointer)
+			if !isPtr || namedOf(at.Elem()) == nil || objName(namedOf(at.Elem()).Obj()) != "MsgMetadata" {
+				continue
+			}
+			m++
+			c.SawFunc(fi.Name())
+			if r == nil {
+				r = c.CtxOf(fi)
+			}
+			msg := ""
+			var judge func(e ast.Expr, at Pt, depth int)
+			judge = func(e ast.Expr, at Pt, depth int) {
+				e = ast.Unparen(e)
+				if fv := fieldOf(info, e); fv != nil {
+					return // the delivery's / pipeline's own field
+				}
+				if v, ok := objOf(info, e).(*types.Var); ok && !v.IsField() {
+					if isParamOrResult(fi, v) {
+						if !assignedAnywhere(info, fi.Decl.Body, v) {
+							return
+						}
+					}
+					if depth < 3 {
+						defs, ok := r.ReachingDefs(v, at, nil)
+						if ok && len(defs) > 0 {
+							for _, d := range defs {
+								dp, found := r.F.PtOfNode(d)
+								if !found {
+									dp = at
+								}
+								judge(d, dp, depth+1)
+							}
+							return
+						}
+					}
+				}
+				msg = "line " + itoa(p.Fset.Position(call.Pos()).Line) + ": the target is started with " + exprStr(e) + " instead of the delivery's own metadata object: the Quarantine flag the body stage / DMARC sets afterwards is written to a different object than the one the target (a nested pipeline's targets included) files the message by"
+			}
+			cp, found := r.F.PtOfNode(call)
+			if !found {
+				c.Fail("R5c", fi.Name()+":Start", call.Pos(), "undecided: call not located in the control-flow graph")
+				continue
+			}
+			judge(call.Args[1], cp, 0)
+			c.Hold("R5c", fi.Name()+":Start", call.Pos(), msg == "", msg)
+		}
+	}
+	if m == 0 {
+		c.Fail("R5c", "starts", token.NoPos, "undecided: the pipeline package starts no target")
+	}
 }
 
 // c06ReplayOnly: the replay rules alone (evaluated by C15 as well)
@@ -844,4 +906,165 @@ func c06StageOrder(c *Check) {
 		c.Hold("R1", "msgpipelineDelivery.Body~BodyNonAtomic", rn.FI.Decl.Pos(), msg == "", msg)
 	}
 
+}
+
+
+// c06ResultsKept: what a check returns from one of its stage methods is a whole – verdict, reason, authentication
+// results (spf=…, dkim=… that DMARC evaluates later), header fields. The runner hands it to the merge as it is. A
+// result that is looked at and then let go on some path (`if res.Reject { return res }; return next()`) loses the
+// authentication results of a clean stage: DMARC then sees "no SPF result" and says none instead of fail.
+func c06ResultsKept(c *Check, rule string) {
+	c.Rule(rule, "check runner: the result of every stage call on a check state (CheckConnection / CheckSender / CheckRcpt / CheckBody) is handed on whole – returned or passed on – on every path from the call to the end of the function around it; a result is never dropped after only its verdict fields were read", 5)
+	p := c.P
+	pk := p.Pkg(pipelineRel)
+	if pk == nil {
+		c.Fail(rule, "package", token.NoPos, "anchor unresolved")
+		return
+	}
+	info := pk.TypesInfo
+	isResult := func(t types.Type) bool {
+		n := namedOf(t)
+		return n != nil && objName(n.Obj()) == "CheckResult" && n.Obj().Pkg() != nil && n.Obj().Pkg().Path() == modPath+"/framework/module"
+	}
+	stage := func(call *ast.CallExpr) bool {
+		switch methodName(call) {
+		case "CheckConnection", "CheckSender", "CheckRcpt", "CheckBody":
+			tv, ok := info.Types[call]
+			return ok && isResult(tv.Type)
+		}
+		return false
+	}
+	// v used as a whole in n (not merely as the operand of a field selection)
+	wholeUse := func(n ast.Node, v types.Object) bool {
+		found := false
+		var stack []ast.Node
+		ast.Inspect(n, func(x ast.Node) bool {
+			if x == nil {
+				stack = stack[:len(stack)-1]
+				return true
+			}
+			if id, ok := x.(*ast.Ident); ok && info.Uses[id] == v && len(stack) > 0 {
+				switch par := stack[len(stack)-1].(type) {
+				case *ast.SelectorExpr:
+					if par.X != ast.Expr(id) {
+						found = true
+					}
+				case *ast.AssignStmt:
+					for _, l := range par.Lhs {
+						if l == ast.Expr(id) {
+							stack = append(stack, x)
+							return true // being assigned, not used
+						}
+					}
+					found = true
+				default:
+					found = true
+				}
+			}
+			stack = append(stack, x)
+			return true
+		})
+		return found
+	}
+	n := 0
+	judgeBody := func(fi *FuncInfo, name string, body *ast.BlockStmt) {
+		var sites []*ast.CallExpr
+		inspectNoLit(body, func(x ast.Node) bool {
+			if call, ok := x.(*ast.CallExpr); ok && stage(call) {
+				sites = append(sites, call)
+			}
+			return true
+		})
+		if len(sites) == 0 {
+			return
+		}
+		c.SawFunc(fi.Name())
+		r := &RuleCtx{C: c, FI: fi, F: p.FlowOf(info, body, name), Info: info}
+		ord := map[string]int{}
+		for _, call := range sites {
+			n++
+			m := methodName(call)
+			ord[m]++
+			key := name + ":" + m + itoa(ord[m])
+			pt, found := r.F.PtOfNode(call)
+			if !found {
+				c.Fail(rule, key, call.Pos(), "undecided: call not located in the control-flow graph")
+				continue
+			}
+			switch nd := pt.Node().(type) {
+			case *ast.ReturnStmt:
+				// `return s.CheckBody(…)`: handed on directly
+				direct := false
+				for _, res := range nd.Results {
+					if ast.Unparen(res) == ast.Expr(call) {
+						direct = true
+					}
+				}
+				c.Hold(rule, key, call.Pos(), direct, "the result of "+m+" is consumed inside a return expression instead of being handed on whole")
+				continue
+			case *ast.ExprStmt:
+				c.Hold(rule, key, call.Pos(), false, "the result of "+m+" is discarded")
+				continue
+			}
+			var v types.Object
+			switch nd := pt.Node().(type) {
+			case *ast.AssignStmt:
+				for i, rh := range nd.Rhs {
+					if ast.Unparen(rh) == ast.Expr(call) && i < len(nd.Lhs) {
+						v = objOf(info, nd.Lhs[i])
+					}
+				}
+			case *ast.ValueSpec:
+				for i, rh := range nd.Values {
+					if ast.Unparen(rh) == ast.Expr(call) && i < len(nd.Names) {
+						v = info.Defs[nd.Names[i]]
+					}
+				}
+			}
+			if v == nil {
+				// `if res := s.Check…(); …` and similar: the init statement is its own node in the graph
+				ast.Inspect(pt.Node(), func(x ast.Node) bool {
+					if as, ok := x.(*ast.AssignStmt); ok && v == nil {
+						for i, rh := range as.Rhs {
+							if ast.Unparen(rh) == ast.Expr(call) && i < len(as.Lhs) {
+								v = objOf(info, as.Lhs[i])
+							}
+						}
+					}
+					return true
+				})
+			}
+			if v == nil {
+				// an argument of another call (`merge(s.CheckBody(…))`): handed on
+				c.Hold(rule, key, call.Pos(), true, "")
+				continue
+			}
+			used := func(q Pt) bool { return q != pt && q.Node() != nil && wholeUse(q.Node(), v) }
+			lost := func(q Pt) bool {
+				if r.F.IsExitPt(q) {
+					return true
+				}
+				return q != pt && q.Node() != nil && assignsObj(info, q.Node(), v)
+			}
+			path, f := r.F.Reach(Query{From: []Pt{pt}, Target: lost, Avoid: used})
+			c.Hold(rule, key, call.Pos(), !f, "the result of "+m+" ("+v.Name()+") is let go on a path on which it was never handed on whole – its authentication results (spf=, dkim=) and header fields are lost to the merge, and DMARC judges the message without them: "+r.F.Describe(path))
+		}
+	}
+	p.AllFuncs([]*packagesPkg{pk}, func(fi *FuncInfo) {
+		if fi.Decl.Body == nil || strings.HasSuffix(p.Fset.Position(fi.Decl.Pos()).Filename, "_test.go") {
+			return
+		}
+		judgeBody(fi, fi.Name(), fi.Decl.Body)
+		li := 0
+		ast.Inspect(fi.Decl.Body, func(x ast.Node) bool {
+			if fl, ok := x.(*ast.FuncLit); ok {
+				li++
+				judgeBody(fi, fi.Name()+"$lit"+itoa(li), fl.Body)
+			}
+			return true
+		})
+	})
+	if n < 5 {
+		c.Fail(rule, "stage-calls", token.NoPos, "undecided: fewer than five stage calls on check states in the pipeline package")
+	}
 }
